@@ -242,6 +242,17 @@ theorem enc_length (K M : Bits) (hK : K.WF) (hKs : K.size ≤ 256) (hM : M.WF) (
     (∃ c, Model.Serpent.enc K M = .ok c ∧ c.length = 16) ∧ (∃ m, Model.Serpent.dec K M = .ok m ∧ m.length = 16) :=
   ⟨⟨_, enc_eq K M hK hKs hM hMs, leBytes_length _ _⟩, ⟨_, dec_eq K M hK hKs hM hMs, leBytes_length _ _⟩⟩
 
+/-- the same for the submission's cipher itself (Spec): decryption inverts encryption and vice versa, every key length, key, block -/
+theorem spec_dec_enc (klen K P : Nat) (hP : P < 2 ^ 128) :
+    decNat klen K (encNat klen K P) = P ∧ encNat klen K (decNat klen K P) = P ∧
+    encNat klen K P < 2 ^ 128 ∧ decNat klen K P < 2 ^ 128 := by
+  unfold decNat encNat
+  refine ⟨?_, ?_, natOfState_lt _ (encState_ws _ (roundKeys_ws _ _) _), natOfState_lt _ (decState_ws _ (roundKeys_ws _ _) _)⟩
+  · rw [stateOfNat_natOfState _ (encState_ws _ (roundKeys_ws _ _) _),
+      decState_encState _ (roundKeys_ws _ _) _ (stateOfNat_ws _), natOfState_stateOfNat _ hP]
+  · rw [stateOfNat_natOfState _ (decState_ws _ (roundKeys_ws _ _) _),
+      encState_decState _ (roundKeys_ws _ _) _ (stateOfNat_ws _), natOfState_stateOfNat _ hP]
+
 /-! ### non-vacuity -/
 example : (⟨0x1234, 13⟩ : Bits).WF ∧ 5 ≤ (⟨0x1234, 13⟩ : Bits).size := by decide
 example : (⟨0, 0⟩ : Bits).WF ∧ 0 ≤ (⟨0, 0⟩ : Bits).size := by decide
